@@ -42,6 +42,8 @@ MANIFEST = {
 
 WP = W('x'), W('x', 'int'), W('x', 'float'), W('x', 're', 'a+'), W('x', 're', r'\d'), W('p', 'path'), W(None, 're', 'a+')
 
+WILD_NAMES = ['anon_0', 'anon_id', 'anon', 'anon0', '_', '_x', 'x1', 'X', 'id', 'self', 'cls', 'path', 'int']
+
 
 def universe():
     u = []
@@ -359,7 +361,10 @@ def work(spec):
         sut.load(fresh=True)
         core.add_sample(res, {'same_mask_pairs': [[rr.default_text(r) for r in pr] for pr in pairs]})
     elif kind == 'flavours':
-        for r in u:
+        # wildcard names of every shape an identifier can take (the router's own marker for nameless wildcards is
+        # 'anon-<n>', which no rule text can spell), beside a nameless wildcard
+        named = [(L('w/'), W(nm), L('/'), W(None, 'int')) for nm in WILD_NAMES] + [(L('w/'), W(nm, 'int')) for nm in WILD_NAMES[:4]]
+        for r in u + named:
             texts = rr.renderings(r)
             paths = paths_for([r], 3)
             for fl, t in texts.items():
